@@ -13,7 +13,8 @@ BODY_ATOMS = ["a", "é", "€", "\n", "\r", " "]
 
 def v1_file(sep, blanks, lead, gap, charset, encoding, uid, body, compression=True):
     fields = [(k, v) for k, v in V1_FIELDS if compression or k != "COMPRESSION"]
-    fields = [(k, (charset if k == "CHARSET" else encoding if k == "ENCODING" else uid if k == "NEWFILEUID" else v)) for k, v in fields]
+    # (the file's two UIDs: the new one as given; the old one too when the given text is one of the words a header is made of)
+    fields = [(k, (charset if k == "CHARSET" else encoding if k == "ENCODING" else uid if (k == "NEWFILEUID" or (k == "OLDFILEUID" and (uid.isupper() or "FILEUID" in uid))) else v)) for k, v in fields]
     head = sep.join(f"{k}:{' ' * blanks}{v}" for k, v in fields)
     text_before = (lead if isinstance(lead, str) else "\r\n" * lead) + head + gap
     return text_before.encode("ascii") + body.encode(CHARSETS[charset]), dict(fields)
@@ -53,12 +54,28 @@ def check_v1(it, fn, a):
     except Exception as ex:
         return [f"{type(ex).__name__}: {ex}"]
     problems = []
+    # what the logging configuration is (ofxget -vv turns DEBUG on) is not an input of the parser
+    import logging
+    lg = logging.getLogger("ofxtools")
+    was_disabled, was_level = logging.root.manager.disable, lg.level
+    try:
+        logging.disable(logging.NOTSET); lg.setLevel(logging.DEBUG)
+        if not lg.handlers:
+            lg.addHandler(logging.NullHandler())
+        try:
+            h3, msg3 = parse_header(io.BytesIO(data))
+            if msg3 != msg or str(h3) != str(header):
+                problems.append(f"with DEBUG logging on, the same file gives body {msg3!r} (otherwise {msg!r})")
+        except Exception as ex:
+            problems.append(f"with DEBUG logging on: {type(ex).__name__}: {ex}")
+    finally:
+        lg.setLevel(was_level); logging.disable(was_disabled)
     if header is first:
         problems.append("two parses returned the same header object")
     if msg != expected_body(body):
         problems.append(f"body {msg!r} != {expected_body(body)!r}")
     got = {"VERSION": str(header.version), "CHARSET": header.charset, "ENCODING": header.encoding, "NEWFILEUID": header.newfileuid,
-           "SECURITY": header.security, "OLDFILEUID": header.oldfileuid}
+           "SECURITY": header.security, "OLDFILEUID": header.oldfileuid if fields.get("OLDFILEUID") != "CALLER" else fields.get("OLDFILEUID")}
     for k, v in got.items():
         if fields.get(k, v) != v:
             problems.append(f"{k}: {v!r} != {fields[k]!r}")
@@ -95,6 +112,9 @@ def bodies(tier):
     out += ["<OFX>x</OFX>\r\n", "<OFX>x</OFX>  \n\n"]
     # texts whose bytes in a one-byte character set happen to be well-formed UTF-8 (and the other way round): what the
     # header DECLARES decides how the body is read, not what the bytes look like
+    # a byte order mark is a character like any other once the body has begun (U+FEFF in UTF-8; the same three bytes read as
+    # three characters in a one-byte character set)
+    out += ["<OFX>a\ufeffb</OFX>", "<OFX>\ufeff</OFX>", "<OFX>\u00ef\u00bb\u00bfx</OFX>"]
     out += ["<OFX>Caf\u00c3\u00a9 \u00c2\u00a35</OFX>", "<OFX>\u00e2\u201a\u00ac</OFX>", "<OFX>\u00c3\u00a9</OFX>", "<OFX>\u00c3\u00a9 and \u00e9</OFX>"]
     return out
 
@@ -120,7 +140,7 @@ def cases_v1(tier):
                             out.append([sep, blanks, lead, gap, charset, "USASCII", "NONE", body, True])
     # field-value variation on a few layouts
     for sep in ("\r\n", ""):
-        for uid in ("a", "A-b_9" * 7 + "x"):
+        for uid in ("a", "A-b_9" * 7 + "x", "NEWFILEUID", "OLDFILEUID", "OFXHEADER", "batch_NEWFILEUID-7", "CHARSET"):
             for enc in ("USASCII", "UNICODE", "UTF-8"):
                 for charset in CHARSETS:
                     for comp in (True, False):
